@@ -406,6 +406,29 @@ def _static_tree_product_message(tree_path: str, path: str) -> str:
     )
 
 
+def _nested_static_trees_message(outer_path: str, inner_path: str) -> str:
+    """Format the error for two static trees of which one lies inside the other.
+
+    Like `_static_tree_file_message`, the text is the same
+    whichever of the two trees is registered second.
+
+    Parameters
+    ----------
+    outer_path, inner_path
+        The labels of the two trees, each with a trailing slash.
+
+    Returns
+    -------
+    message
+        The error message.
+    """
+    return (
+        f"Static trees ({outer_path}) and ({inner_path}) cannot be nested: "
+        "a static tree is the sole owner of the files under it, in either order. "
+        "Drop the inner tree, or narrow the outer one."
+    )
+
+
 def _glob_product_message(pattern: str, glob_step_label: str, path: str, step_label: str) -> str:
     """Format the error for a glob pattern that matches a path a step builds.
 
@@ -1861,13 +1884,15 @@ class Workflow(Trellis):
                         _creator_phrase(creator.kind(), creator.label),
                     )
                 )
-            raise GraphError(f"Static tree is a subdirectory of an existing static tree: {path}")
+            raise GraphError(_nested_static_trees_message(static_tree.label, path))
         clause, pattern = prefix_clause("node.label", path)
-        sql = f"SELECT 1 FROM node WHERE kind = 'st' AND NOT detached AND {clause}"
-        if self.db.execute(sql, (pattern,)).fetchone() is not None:
-            raise GraphError(
-                f"Static tree is a parent directory of an existing static tree: {path}"
-            )
+        sql = (
+            f"SELECT label FROM node WHERE kind = 'st' AND NOT detached AND {clause} "
+            "ORDER BY label LIMIT 1"
+        )
+        row = self.db.execute(sql, (pattern,)).fetchone()
+        if row is not None:
+            raise GraphError(_nested_static_trees_message(path, row[0]))
         # A static tree is the sole owner of the files under it.
         # Attached file nodes already present under this path are therefore
         # either this creator's own static declarations, which the tree takes over below,
